@@ -3,3 +3,4 @@ open PgmVerif
 #print axioms PgmVerif.C17_shift_den
 #print axioms PgmVerif.C17_unroll_slices
 #print axioms PgmVerif.C17_unroll_wf
+#print axioms PgmVerif.C17_slicewise_elimination_exact
